@@ -370,6 +370,12 @@ Definition check_xfer_shapes (f : xfer_facts) : bool :=
   && list_string_eqb (xf_reset_stmt f)
        ["pending.add(asyncio.create_task(f(conn, rest)))";
         "if cmd not in ('retr', 'stor', 'appe'): conn.restart_offset = 0"]
+  && list_string_eqb (xf_backend_wiring f)
+       ["self.path_io_factory = pathio.PathIONursery(path_io_factory)";
+        "connection.path_io = self.path_io_factory(**kw)"]
+  && list_string_eqb (xf_nursery_call f)
+       ["instance = self.factory(*args, state=self.state, **kwargs)";
+        "if self.state is None: self.state = instance.state"; "return instance"]
   && list_string_eqb (xf_iter_anext f)
        ["data = await self.read_coro()"; "if data: return data else: raise StopAsyncIteration"]
   && list_string_eqb (xf_iter_by_block_stream f) ["return AsyncStreamIterator(lambda: self.read(count))"]
